@@ -10,7 +10,7 @@
    buf_size_bytes argument.  Preconditions of the C contract are boolean guards:
      copy_pre  = both buffers are large enough for the addressed ranges, allocations < 2^61 bytes
      buf_pre   = size <= allocation, allocation < 2^61 bytes, offset is a size_t, bytes < 256. *)
-From Verif Require Import Bits CPrims CPrimsThm F16 F16Thm F16ArithThm CppPrims CppPrimsThm CppPrimsMoreThm PyPrims PyPrimsThm PyPrimsMoreThm.
+From Verif Require Import Bits CPrims CPrimsThm F16 F16Thm F16ArithThm CppPrims CppPrimsThm CppPrimsMoreThm PyPrims PyPrimsThm PyPrimsMoreThm PyPrimsStdThm.
 Open Scope N_scope.
 
 (* ---------------------------------------------------------------------------------------------
@@ -429,3 +429,43 @@ Theorem C14_py_fetch_unaligned_bit_spec :
   forall d : des, fetch_unaligned_bit d = (bit (d_buf d) (d_off d), mkdes (d_buf d) (d_off d + 1)).
 Proof. exact fetch_unaligned_bit_spec. Qed.
 Print Assumptions C14_py_fetch_unaligned_bit_spec.
+
+(* the standard-width methods: add_aligned_u8 (x <= 255: NumPy rejects larger), u16/u32/u64 (truncating), i8..i64 (two's complement) *)
+Theorem C14_py_add_aligned_u8_appends :
+  forall (s : ser) (x : N),
+    Inv s -> bytes_ok (s_buf s) -> x <= 255 -> s_off s mod 8 = 0 -> s_off s / 8 < blen (s_buf s) ->
+    exists s', add_aligned_u8 s x = Some s' /\ appended s s' 8 (N.testbit x).
+Proof. exact add_aligned_u8_appends. Qed.
+Print Assumptions C14_py_add_aligned_u8_appends.
+
+Theorem C14_py_add_aligned_u16_u32_u64_appends :
+  forall (s : ser) (x : N),
+    Inv s -> bytes_ok (s_buf s) -> s_off s mod 8 = 0 ->
+    (s_off s / 8 + 2 <= blen (s_buf s) -> exists s', add_aligned_u16 s x = Some s' /\ appended s s' 16 (N.testbit x)) /\
+    (s_off s / 8 + 4 <= blen (s_buf s) -> exists s', add_aligned_u32 s x = Some s' /\ appended s s' 32 (N.testbit x)) /\
+    (s_off s / 8 + 8 <= blen (s_buf s) -> exists s', add_aligned_u64 s x = Some s' /\ appended s s' 64 (N.testbit x)).
+Proof.
+  intros s x HI Hok Hal. split; [|split]; intros Hcap;
+    [exact (add_aligned_u16_appends s x HI Hok Hal Hcap)|exact (add_aligned_u32_appends s x HI Hok Hal Hcap)|
+     exact (add_aligned_u64_appends s x HI Hok Hal Hcap)].
+Qed.
+Print Assumptions C14_py_add_aligned_u16_u32_u64_appends.
+
+Theorem C14_py_add_aligned_ixx_appends :
+  forall (w : N) (s : ser) (x : Z),
+    (w = 8 \/ w = 16 \/ w = 32 \/ w = 64) ->
+    Inv s -> bytes_ok (s_buf s) -> s_off s mod 8 = 0 -> s_off s / 8 + w / 8 <= blen (s_buf s) ->
+    (- 2 ^ (Z.of_N w - 1) <= x < 2 ^ (Z.of_N w - 1))%Z ->
+    exists s', add_aligned_ixx w s x = Some s' /\ appended s s' w (fun k => Z.testbit x (Z.of_N k)).
+Proof. exact add_aligned_ixx_appends. Qed.
+Print Assumptions C14_py_add_aligned_ixx_appends.
+
+(* fetch_aligned_u8..u64 return the w bits at the cursor (zero beyond the end); i8..i64 sign-extend them *)
+Theorem C14_py_fetch_aligned_uxx_ixx_spec :
+  forall (w : N) (d : des),
+    (w = 8 \/ w = 16 \/ w = 32 \/ w = 64) -> bytes_ok (d_buf d) -> d_off d mod 8 = 0 ->
+    exists u d', fetch_aligned_uxx w d = Some (u, d') /\
+      (d_buf d' = d_buf d /\ d_off d' = d_off d + w /\ forall k, N.testbit u k = (k <? w) && bit (d_buf d) (d_off d + k)) /\
+      fetch_aligned_ixx w d = Some (sign_extend w u, d').
+Proof. exact fetch_aligned_ixx_spec. Qed.
+Print Assumptions C14_py_fetch_aligned_uxx_ixx_spec.
